@@ -441,3 +441,22 @@ Theorem C11_exhaustive_growth :
          forall k : nat, walk_count x y k = length (layer state st_eq_dec gens (start :: nil) k).
 Proof. exact @exhaustive_growth. Qed.
 Print Assumptions C11_exhaustive_growth.
+
+From V Require Import Base Tensor Graph GraphProofs GraphImpl Hash Perm Codec CodecProofs Def Bfs BfsRun BfsProofs NumpyBfs NumpyBfsProofs InstPerm InstBfs InstCodec InstCodecBfs InstCodecNumpy.
+
+(* the NumPy engine on the 1-D routines, started from the model's code word, returns the layer sizes of acts (impl_of d) *)
+Theorem C11_numpy_engine_on_model :
+  forall (d : gdesc) (w : nat) (idx : list nat) (s0 : state) (md : BinNums.N),
+         wf_perm_desc d ->
+         g_width d = Some w ->
+         single_word d ->
+         np_inverse_index (desc_perms d) = Ok idx ->
+         Ustates d s0 ->
+         BinNat.N.le (BinNums.Npos BinNums.xH) md ->
+         bfs_numpy (List.map (fun p : list nat => eval_prog1d (emit w (desc_n d) p)) (desc_perms d))
+           idx (code_word w (desc_n d) s0) md =
+         take_nonzero
+           (List.map (fun i : nat => length (layer state st_eq_dec (acts (impl_of d)) (s0 :: nil) i))
+              (List.seq 0 (S (BinNat.N.to_nat md)))).
+Proof. exact @numpy_engine_on_model. Qed.
+Print Assumptions C11_numpy_engine_on_model.
